@@ -12,7 +12,7 @@
  *
  * Per run the parent prints
  *   RUN <id> threads=<n> warm0=<0|1> warm1=<0|1>
- *   E <tid> <cache> <want|got|rel|init|yield> <name> <arg> <FFT_LEN> <readcount> <writecount> <tab> <m1> <m2> <m3> <w> <r>
+ *   E <tid> <cache> <want|got|rel|init|yield|use> <name> <arg> <FFT_LEN> <readcount> <writecount> <tab> <m1> <m2> <m3> <w> <r>
  *   V <tid> <begin|passed|filled|end|leave>
  *   END
  *   VIOL <id> <event#> <KIND> <detail>             what the harness-side monitors saw on the REAL code (property oracles)
@@ -66,12 +66,12 @@ void __tsan_acquire(void *); void __tsan_release(void *);
 #define MAXDEC 200000
 #define MAXOUT 40000
 
-enum {K_WANT, K_GOT, K_REL, K_INIT, K_YIELD, K_VR};
-static const char *kind_name[] = {"want", "got", "rel", "init", "yield", "vr"};
+enum {K_WANT, K_GOT, K_REL, K_INIT, K_YIELD, K_VR, K_USE};
+static const char *kind_name[] = {"want", "got", "rel", "init", "yield", "vr", "use"};
 enum {N_M1, N_M2, N_M3, N_W, N_R, N_CHECK_PASSED, N_LOCKS_INITIALISED, N_REBUILD_BEGIN, N_BEGIN_READER, N_END_READER,
-      N_BEGIN_WRITER, N_END_WRITER, N_VR_BEGIN, N_VR_PASSED, N_VR_FILLED, N_VR_END, N_VR_LEAVE, N_OTHER};
+      N_BEGIN_WRITER, N_END_WRITER, N_VR_BEGIN, N_VR_PASSED, N_VR_FILLED, N_VR_END, N_VR_LEAVE, N_OTHER, N_TABLES};
 static const char *name_str[] = {"m1", "m2", "m3", "w", "r", "check-passed", "locks-initialised", "rebuild-begin", "begin-as-reader",
-  "end-as-reader", "begin-as-writer", "end-as-writer", "begin", "passed", "filled", "end", "leave", "other"};
+  "end-as-reader", "begin-as-writer", "end-as-writer", "begin", "passed", "filled", "end", "leave", "other", "tables"};
 
 typedef struct { int tid, cache, kind, name; long arg, flen, rc, wc, tab; unsigned char h[5]; } event_t;
 static event_t alt_obs[4]; /* cache-1 observation of a yield whose cache is not yet known */
@@ -271,6 +271,30 @@ void soxr_verif_yield(char const *tag)
   else if (!strcmp(tag, "vr:fade-filled")) { emit(-1, K_VR, N_VR_FILLED, 0); handover(); wait_turn(); pthread_mutex_unlock(&mu); HIDE_END(); return; }
   else name = N_OTHER;
   emit(cache, K_YIELD, name, 0);
+  handover(); wait_turn();
+  pthread_mutex_unlock(&mu);
+  HIDE_END();
+}
+
+/* fft4g.c: a transform is about to dereference its tables (ip[0], then the twiddles).  Private work areas are ignored; the
+ * process-wide tables are recognised by pointer identity.  An event of the running thread, a monitor (the thread must be inside a
+ * dft:begin/end bracket of that cache, i.e. hold the reader or the writer role, and nobody else may be rebuilding) and a
+ * scheduling point. */
+void soxr_verif_table_use(int const *ip, void const *w)
+{
+  int cache, t;
+  if (!managed || me < 0) return;
+  HIDE_BEGIN();
+  if (ip == lsx_fft_br || (lsx_fft_sc && w == (void const *)lsx_fft_sc)) cache = 0;
+  else if (ip == lsx_fft_br_f || (lsx_fft_sc_f && w == (void const *)lsx_fft_sc_f)) cache = 1;
+  else { HIDE_END(); return; }
+  pthread_mutex_lock(&mu);
+  cur_cache[me] = cache;
+  if (in_read[me] != cache + 1 && in_rebuild[me] != cache + 1)
+    viol("TABLE-USE-OUTSIDE-LOCK", "thread %ld dereferences the tables of cache %ld outside UPDATE_FFT_CACHE .. DONE_WITH_FFT_CACHE (it holds neither the reader nor the writer role)%.0ld", me, cache, 0);
+  for (t = 0; t < nthreads; ++t) if (t != me && in_rebuild[t] == cache + 1)
+    viol("TABLE-USE-DURING-REBUILD", "thread %ld dereferences the tables of cache %ld while thread %ld re-allocates / rebuilds them", me, cache, t);
+  emit(cache, K_USE, N_TABLES, 0);
   handover(); wait_turn();
   pthread_mutex_unlock(&mu);
   HIDE_END();
